@@ -175,6 +175,82 @@ def judge(ctx, mode, extra, obs, acc):
     return found
 
 
+@core.guarded(lambda i, j, *a: dict(kind='rewrite', first=list(i), second=list(j)))
+def check_rewrite(i, j, acc):
+    """one reader object, one path: COMA writes records i there, the reader reads them, COMA writes records j to the SAME path, the
+    same reader reads again (what happens when a command is repeated with other options, or a tool keeps its reader)"""
+    from src.args import Args
+    from src.parsers.xmap_reader import XmapReader
+    from src.parsers.xmap_alignment_pair_parser import XmapAlignmentPairWithDistanceParser
+    d = core.scratch_dir()
+    rp, qp, op = os.path.join(d, 'r18.cmap'), os.path.join(d, 'q18.cmap'), os.path.join(d, 'rw18.xmap')
+    with open(rp, 'w') as f:
+        f.write(cmaptext.text(REFS))
+    with open(qp, 'w') as f:
+        f.write(cmaptext.text(QRY))
+    refs, qs = _maps()
+    found = []
+    case = dict(kind='rewrite', first=list(i), second=list(j))
+    readers = [XmapReader(), XmapReader(XmapAlignmentPairWithDistanceParser(list(refs.values()), list(qs.values())))]
+    seen = []
+    for step, idxs in enumerate((i, j)):
+        rows = [build_row(CATALOGUE[k], refs, qs) for k in idxs]
+        args = Args.parse(driver.cli_args(rp, qp, op, 'best'))
+        try:
+            XmapReader().writeAlignments(args.outputFile, AlignmentResults(rp, qp, rows), args)
+        finally:
+            for fobj in (args.referenceFile, args.queryFile, args.outputFile):
+                fobj.close()
+        from mc import xmaptext
+        recs = xmaptext.parse(open(op).read())[2]
+        for ri, rd in enumerate(readers):
+            try:
+                with open(op) as f:
+                    back = rd.readAlignments(f)
+                got = [(int(b.queryId), int(b.referenceId), [(x.reference.siteId, x.query.siteId) for x in b.alignedPairs]) for b in back]
+            except Exception as e:
+                found.append(('readback-exception', 'read %d: %s: %s' % (step + 1, type(e).__name__, str(e)[:200]), 'reader', dict(records=min(len(recs), 2))))
+                continue
+            exp = [(int(r['QryContigID']), int(r['RefContigID']), r['pairs']) for r in recs]
+            if got != exp:
+                found.append(('second-read-of-a-rewritten-path-returns-other-records' if step else 'readback-pairs',
+                              'reader %d, read %d of the path: got %s, the file holds %s' % (ri, step + 1, got, exp), 'reader', {'read': step + 1}))
+        seen.append(len(recs))
+    if acc is not None:
+        acc.evals += 1
+        acc.transitions += 6
+        acc.state(('rw', tuple(i), tuple(j)))
+        if tuple(i) != tuple(j):
+            acc.nontriv(('rw', tuple(i), tuple(j)))
+        for f in found:
+            acc.viol(f[0], case, f[1], f[2], f[3])
+        acc.sample(case)
+    return found
+
+
+class Rewrite(core.Layer):
+    name = 'seq2:rewrite'
+    optional = False
+
+    def __init__(self):
+        singles = [()] + [(k,) for k in range(len(CATALOGUE))]
+        self.cases = [(a, b) for a in singles for b in singles]
+        self.chunk = 13
+        self.bounds = dict(record_sets=len(singles), sequences=len(self.cases), readers=2)
+        self.rule = 'every ordered pair of %d record sets (empty or one catalogue record) written to one path in turn, read after each write by the same two reader objects' % len(singles)
+
+    def nblocks(self):
+        return (len(self.cases) + self.chunk - 1) // self.chunk
+
+    def run_block(self, b, acc):
+        for a, c in self.cases[b * self.chunk:(b + 1) * self.chunk]:
+            acc.seq += 1
+            check_rewrite(a, c, acc)
+
+    def replay(self, case):
+        return check_rewrite(tuple(case['first']), tuple(case['second']), None)
+
+
 class StdoutRuns(core.Layer):
     """`coma ... > out.xmap`: without -o the XMAP is what the process prints; a run that also has something to say about its input
     (a molecule that cannot be aligned) must still print a file that reads back"""
@@ -230,6 +306,6 @@ class StdoutRuns(core.Layer):
 
 def layers(tier, seed):
     ws = e2e.std_worlds(tier, seed, depth2=False)
-    return [Synthetic(3 if tier == 'quick' else 4), StdoutRuns(3 if tier == 'quick' else 12),
+    return [Synthetic(3 if tier == 'quick' else 4), Rewrite(), StdoutRuns(3 if tier == 'quick' else 12),
             e2e.WorldLayer('B:worlds', ws, judge, in_child=own_reader, bounds=dict(worlds=len(ws), modes=list(e2e.MODES)),
                            rule='every file (main,_1,_2) of every standard world x 4 modes, read back with both parsers and with the reader object the Program wrote it with')]
